@@ -207,6 +207,18 @@ Proof.
 Qed.
 Print Assumptions padding_bits_rejected.
 
+(* ---------- the Tink wrapper: a keyset accepts only what one of its keys verified ---------- *)
+(* for a keyset with one key of any output prefix type: an accepted input has at least 5 bytes and either the key is
+   RAW and the primitive verified the whole input, or the input starts with that key's prefix and the primitive
+   verified the rest.  In particular an input whose prefix matches no key is never accepted. *)
+Theorem wrapped_accept_sound : forall k kp bytes inner,
+  wrapped_verify k kp bytes inner = VAccept ->
+  (5 <= length bytes)%nat /\
+  ((k = PRaw /\ inner bytes = VAccept) \/
+   (k <> PRaw /\ firstn 5 bytes = kp /\ inner (skipn 5 bytes) = VAccept)).
+Proof. exact wrapped_accept_lemma. Qed.
+Print Assumptions wrapped_accept_sound.
+
 (* ---------- crafted proof bytes never crash the repaired verifier; the proof buffer is left alone ---------- *)
 Theorem never_panics : forall bs, parse_sigproof Fixed bs <> PPanic.
 Proof.
